@@ -104,6 +104,10 @@ class TreeBuilder:
         lit = Adt('StringLiteral', None, (self.loc(), unicode, s if not isinstance(s, str) else Str(s)))
         return Adt('Expression', 'StringLiteral', (VecV([lit]),))
 
+    def strings(self, parts):
+        """one string literal written as several adjacent parts: `"abc" "def"`"""
+        return Adt('Expression', 'StringLiteral', (VecV([self.strlit(x) for x in parts]),))
+
     def strlit(self, s):
         return Adt('StringLiteral', None, (self.loc(), False, s if not isinstance(s, str) else Str(s)))
 
